@@ -504,18 +504,22 @@ func NewConfig(configFile string) (*Config, error) { // nolint: gocyclo
 		v      = viper.New()
 	)
 
-	// Return default config if config file is not given.
+	// Allow overriding config with environment variables. Nested keys use
+	// underscores, e.g. LIFTBRIDGE_TELEMETRY_ENABLED for telemetry.enabled.
+	v.SetEnvPrefix("LIFTBRIDGE")
+	v.SetEnvKeyReplacer(strings.NewReplacer(".", "_"))
+	v.AutomaticEnv()
+
+	// Return default config if config file is not given. The telemetry opt-out
+	// (LIFTBRIDGE_TELEMETRY_ENABLED=false) is honored without a config file too.
 	if configFile == "" {
+		parseTelemetryConfig(config, v)
 		return config, nil
 	}
 
 	// Expect a yaml config file.
 	v.SetConfigFile(configFile)
 	v.SetConfigType("yaml")
-
-	// Allow overriding config with environment variables
-	v.SetEnvPrefix("LIFTBRIDGE")
-	v.AutomaticEnv()
 
 	// Parse the config file.
 	if err := v.ReadInConfig(); err != nil {
